@@ -14,7 +14,7 @@ var runCounter int
 func newVC(prog *Program, fi *FuncInfo) *VC {
 	runCounter++
 	return &VC{prog: prog, fn: fi, heap0: map[string]*Term{}, heapSorts: map[string]*Sort{}, runTag: fmt.Sprintf("r%d", runCounter),
-		boxed: map[types.Object]bool{}, siteOrd: map[ast.Node]string{}, loopPath: map[ast.Stmt]string{}, closures: map[types.Object]*ast.FuncLit{}, analyzed: map[ast.Node]bool{}, ghostTypes: map[string]types.Type{}}
+		boxed: map[types.Object]bool{}, siteOrd: map[ast.Node]string{}, siteOrd2: map[ast.Node]string{}, loopPath: map[ast.Stmt]string{}, closures: map[types.Object]*ast.FuncLit{}, analyzed: map[ast.Node]bool{}, ghostTypes: map[string]types.Type{}, usedSites: map[string]bool{}, heapGoTypes: map[string]types.Type{}, mapValArr: map[string]bool{}, epochAlloc: map[string]*Term{}}
 }
 
 // analyzeBody computes boxed variables and site numbering for a function body.
@@ -92,6 +92,7 @@ func (vc *VC) verify() (obls []*Obligation, err error) {
 	s := &State{env: map[types.Object]*Term{}, ghost: map[string]*Term{}, heap: map[string]*Term{}, epoch: "0"}
 	s.alloc = Const("alloc0."+vc.runTag, SInt)
 	s.assume(Gt(s.alloc, IntLit(0)))
+	vc.epochAlloc["0"] = s.alloc
 	fr := &Frame{fn: fi, sig: sig, info: info, pkg: fi.Pkg}
 	vc.frames = []*Frame{fr}
 	paramVals := map[types.Object]*Term{}
@@ -131,8 +132,15 @@ func (vc *VC) verify() (obls []*Obligation, err error) {
 	}
 	vc.cover(s, "requires", "precondition satisfiable", fi.Decl.Pos())
 	vc.entry = s.clone()
+	vc.modAll = spec.ModAll
+	if !spec.ModAll {
+		pre := *env
+		pre.st = vc.entry
+		vc.topMods = vc.modSetOf(spec, &pre)
+	}
 	fr.results = vc.bindResults(s, fi.Decl.Type.Results, info)
 
+	vc.frames = nil
 	res := vc.runFrame(s, fr, fi.Decl.Body, sig)
 	vc.frames = []*Frame{fr}
 	// escaping panics
@@ -141,6 +149,21 @@ func (vc *VC) verify() (obls []*Obligation, err error) {
 			vc.oblige(p, "safety", "panic-escapes", "explicit panic escapes the function", fi.Decl.Pos(), False)
 		}
 	}
+	for key := range spec.Asserts {
+		if !vc.usedSites[key] {
+			return nil, fmt.Errorf("%s: site clause %q matches no statement", shortKey(fi.Key), key)
+		}
+	}
+	for key := range spec.SiteKFs {
+		if !vc.usedSites[key] {
+			return nil, fmt.Errorf("%s: site clause %q matches no statement", shortKey(fi.Key), key)
+		}
+	}
+	defer func() {
+		for _, o := range vc.obls {
+			o.Assume = append(append([]*Term{}, vc.bgFacts...), o.Assume...)
+		}
+	}()
 	if s.dead {
 		return vc.obls, nil
 	}
@@ -163,7 +186,6 @@ func (vc *VC) verify() (obls []*Obligation, err error) {
 	for i, e := range spec.Ensures {
 		vc.obligeKeep(s, "ensures", fmt.Sprintf("%d", i+1), "postcondition: "+e.Src, fi.Decl.Pos(), post.evalBool(e))
 	}
-	vc.checkFrame(s, spec, post)
 	return vc.obls, nil
 }
 
